@@ -13,13 +13,15 @@ TEXT = {
     "C03": ("Bounded model checking of the real serializer and loader (Kani/CBMC over /repo/src, recompiled on every run): for every "
             "content of each stated shape, from_bytes(serialize(v)) == v, all input is consumed and re-serialization is byte-identical. "
             "Inverse-ness is a for-all-inputs statement; the solver quantifies over every operand, string and header value of a shape "
-            "where the suite fixes one.",
-            "5 (C03)", "Kani/CBMC bounded model checking of serialize/from_bytes per shape"),
+            "where the suite fixes one. Whole programs with mixed constant pools and the label table the loader derives are decided on the MIR of "
+            "Program::serialize / from_bytes (shape concrete, every number symbolic).",
+            "5E (C03)", "Kani/CBMC bounded model checking of serialize/from_bytes per shape + MIR/z3 whole-program round trip"),
     "C04": ("Differential bounded model checking against an independent reference codec written from the documented layout: the real "
             "writer equals the reference encoder byte for byte and the real reader decodes every buffer of the documented layout to the "
             "value it denotes, for all contents of each shape; undocumented tags are rejected. A symmetric writer/reader change passes "
-            "every round trip and fails here.",
-            "5 (C04)", "Kani/CBMC differential check: real codec vs reference codec"),
+            "every round trip and fails here. Whole programs with mixed pools: the MIR of the real writer against an independent reference encoder "
+            "byte for byte, and the MIR of the real reader on the reference bytes.",
+            "5E (C04)", "Kani/CBMC differential check: real codec vs reference codec + MIR/z3 whole-program layout and decode"),
     "C08": ("Bounded model checking with the sink's behaviour symbolic: a Write impl accepts a solver-chosen non-empty prefix of every "
             "request; for every serializer level and every content, Ok implies that exactly the reference bytes arrived. Every short-write "
             "schedule is covered in one query per shape, which no fixed sink can do.",
@@ -34,8 +36,11 @@ TEXT = {
 TEXT.update({
     "C02": ("Bounded model checking of the real compile_into, one AST node at a time: the emitted instruction schema, its net operand-stack "
             "effect for keep_result both ways (the discard path the suite never takes), constant-pool references of the right kind, in "
-            "three frame kinds, for every literal value and variable name assignment. Partial: arms with several children are not covered.",
-            "5 (C02)", "Kani/CBMC over compile_into per AST arm with a stack-effect interpreter"),
+            "three frame kinds, for every literal value and variable name assignment. The arms with several children are decided on the MIR of "
+            "compile_into (shape of the AST concrete, literals and keep_result symbolic): 38 templates x 4 contexts, each path's program checked for "
+            "references, kinds, labels, method ranges, frame sizes and one operand-stack depth per instruction; the executor's output is compared "
+            "with the natively compiled program on every run.",
+            "5C (C02)", "Kani/CBMC over compile_into per AST arm + MIR/z3 symbolic execution of the whole compiler on AST templates"),
     "C05": ("Step refinement by bounded model checking: for each VM kernel, from an arbitrary small pre-state (every Pointer symbolic, "
             "operands selecting right kind / wrong kind / out of range) the post-state equals the documented instruction semantics and the "
             "kernel fails exactly where they are undefined. One step from every state of the shape covers histories of any length whose "
@@ -58,19 +63,25 @@ TEXT.update({
     "C12": ("Bounded model checking of the scope kernel through the public compiler API: for each sequence of let / read / assign / enter / leave "
             "(kinds are the shape, every name symbolic over two names) in three frame kinds, every access resolves to the slot the README's block "
             "scoping rules give (innermost visible definition, fresh slot per shadowing let, left scopes invisible, top-level lets are globals). "
-            "Partial: function isolation and run-time observation are not covered.", "5 (C12)", "Kani/CBMC scope-operation sequences vs a reference resolver"),
+            "Run-time observation: the whole compiler is executed on its MIR for scope templates (shadowing, sibling blocks, function isolation, parameters, "
+            "methods) whose variable reads are printed; the values the emitted code prints on a reference stack machine equal those of the README's scoping.",
+            "5C (C12)", "Kani/CBMC scope-operation sequences vs a reference resolver + MIR/z3 compiler scope templates"),
     "C13": ("VM side by bounded model checking: operands are popped exactly once and in the pushed order (branch, array, set slot), the value of "
             "a let / assignment is compiled before the store; argument order of function / method calls and member order of object creation are "
-            "decided on the kernels' MIR with z3. Partial: the compiler arms with several children are not covered.",
-            "5A (C13)", "Kani/CBMC VM-side operand order and multiplicity + MIR/z3 call and object kernels"),
+            "decided on the kernels' MIR with z3. Compiler side: compile_into is executed on its MIR for 38 templates whose operand positions hold "
+            "self-identifying calls; the trace of the emitted code on a reference stack machine must equal the trace the README's semantics "
+            "prescribe (left to right, initializer per element, taken branch only, loop condition once more at exit) for the listed run-time choices.",
+            "5C (C13)", "Kani/CBMC VM-side operand order + MIR/z3 call / object kernels + MIR/z3 compiler templates against a reference evaluator"),
     "C14": ("Bounded model checking of field access through heap references (in-place update visible through the reference, non-objects rejected) "
             "and z3 over the MIR of the built-in dispatch tables, of field get / set on object cells and of method dispatch through a parent "
             "chain (own method first, then the parent's, built-ins at the chain end, arity checked).",
             "5A (C14)", "Kani/CBMC field kernels + MIR/z3 dispatch, parent-chain and field kernels"),
     "C15": ("Bounded model checking of the print state machine for every ASCII format string up to 5 bytes (escapes, copied characters, "
             "placeholder without argument fails, nothing written on failure, null pushed), a two-byte character copied unchanged, and z3 inclusion "
-            "both ways between the lexer's string-literal language and the escapes print accepts. Partial: prints with arguments and value "
-            "rendering do not fit CBMC.", "5 (C15)", "Kani/CBMC print state machine + z3 lexer/print escape agreement"),
+            "both ways between the lexer's string-literal language and the escapes print accepts. Prints with arguments and the rendering of "
+            "values are decided on the MIR of eval_print and evaluate_as_string: every argument and heap leaf a symbolic Pointer, the sink a "
+            "token list, verdict and output compared with the property's own definition per path.",
+            "5D (C15)", "Kani/CBMC print state machine + z3 lexer/print escape agreement + MIR/z3 print with arguments and value rendering"),
     "C16": ("Bounded model checking of Heap::allocate accounting (returns the old length, appends one cell, adds exactly size() > 0, size depends "
             "on shape only) through a guarded read accessor, exactly one allocation per successful array creation and none on failure or in any "
             "other kernel, under an arbitrary --heap-size; array and object creation are decided on their MIR with z3 (one cell appended, "
